@@ -130,6 +130,10 @@ def c03(ctx):
         ("c03-sess", consts(Acts='{"sess", "stale", "info", "utypes"}', MaxH="3" if quick else "4", MaxO="0")),
         ("c03-pin", consts(Tokens='{"t1"}' if quick else '{"t1", "t2"}', Acts='{"sess", "pin"}', MaxH="2", MaxO="0",
                            LoginPins='{"P1", "P2", "P3", "short"}')),
+        # a call that FAILS leaves sessions and login state unchanged - also when it fails because the token's files have
+        # been removed behind the library's back (another process deleted the token)
+        ("c03-vanish", consts(Tokens='{"t1"}' if quick else '{"t1", "t2"}', Acts='{"sess", "vanish", "rightpin"}', MaxH="2",
+                              MaxO="0", LoginPins='{"P1", "P2"}')),
     ]
     r = run_graphs(ctx, lib, graphs, ["rv", "ss"], ["secret"], INV_SESS, jobs=8 if quick else 14)
     # 3. beyond the bounds: simulation with up to 8 handles, depth 60
